@@ -49,6 +49,30 @@ CHECKS["C19"] = dict(cat="model_checking", ref="4 C19", engine="po-smt",
    note="Trusted: Z3; the AST translator (guarded by a reachability twin and two must-fail source mutants every run); documented semantics of "
         "gc.enable/disable/isenabled and threading.Lock; atomicity of one source line (the property's granularity). Unsupported constructs in a "
         "future version of the functions give exit 3 (cannot encode), never a verdict.")
+VSA_NOTE = ("Trusted: Z3 4.13.0; the pysym int-shadow operator models (W-bit two's complement, fits obligations per path; on every "
+            "feasible path the native method is re-run on a solver-chosen model of the path and must return the same result); the "
+            "concretisation gamma(s[lb,ub]) = {z : (z-lb) <=u (ub-lb) and (s == 0 ? z == lb : (z-lb) mod s == 0)}, which is what "
+            "StridedInterval.eval enumerates; run-time shims in the strided_interval module namespace (math.gcd/lcm as Euclid on "
+            "shadows; math.log2/floor/ceil, range(), float() concretise their argument by forking over its values). Assumed: operand "
+            "intervals well-formed (lb == ub, or stride != 0 and (ub-lb) mod stride == 0). Operand tuples listed in "
+            "known_vsa_tables.json (exhaustive native triage at widths <= 3, unary <= 5) are excluded as known findings; at wider widths "
+            "an operation with a known defect is treated as known as a whole (coarse entry) - nothing new can be detected there. "
+            "Path-budget / wall-cap / unknown = inconclusive, listed in evidence.")
+CHECKS["C21"] = dict(cat="other", ref="4 C21", engine="pysym",
+   text="Bounded solver-based checking of the real StridedInterval methods: stride, lower and upper bound of every operand are symbolic n-bit "
+        "values (pysym shadows) run through the real transfer function; on every explored path Z3 decides, for all well-formed operand intervals "
+        "on that path and all concrete members x, y, that the SMT-LIB result op(x, y) is a member of the abstract result (comparisons: the truth "
+        "value is among the answers). Widths 1..3 for every operation and 4 (5, 8 in thorough) for those whose path count stays small. Every "
+        "counterexample is replayed natively against an enumerating oracle before it is reported. Not a proof: bounded by width and path budget.",
+   technique="symbolic execution of the real Python code on int shadows; Z3 containment query per path over all intervals and members (bounded widths)",
+   note=VSA_NOTE)
+CHECKS["C22"] = dict(cat="other", ref="4 C22", engine="pysym",
+   text="Same engine as C21 on union / least_upper_bound (2 and 3 operands) / widen (result contains every member of every operand), "
+        "intersection (contains every common member) and the queries eval, min, max (signed and unsigned), cardinality, solution, "
+        "is_top/is_empty/is_integer (agree with the member set: Z3 decides membership, distinctness, count == closed-form cardinality, "
+        "extremality against an arbitrary member). Widths 1..3 (joins) / 1..4 (queries) quick, one more in thorough.",
+   technique="symbolic execution of the real Python code on int shadows; Z3 containment / exactness query per path (bounded widths)",
+   note=VSA_NOTE)
 NOT_YET = {}
 NA = {
  "C20": "Real OS-thread preemption inside CPython and libz3 cannot be encoded by any engine available here; a stress run would be sampling, i.e. a different technique (DESIGN.md section 5).",
